@@ -428,6 +428,50 @@ def _identifiers(repo, rep):
               construct="mangle", where=L.where(g))
 
 
+def _key_transforms(expr, argnames):
+    """parts of a cache-key expression that are more than a regrouping of
+    the argument objects -> [source text]"""
+    bad = []
+    GROUP = ("tuple", "sorted", "frozenset", "list")
+
+    def ident_elt(elt, targets):
+        names = {x.id for t in targets for x in ast.walk(t)
+                 if isinstance(x, ast.Name)}
+        if isinstance(elt, ast.Name):
+            return elt.id in names
+        if isinstance(elt, ast.Tuple):
+            return all(ident_elt(e, targets) for e in elt.elts)
+        return False
+
+    def rec(e):
+        if isinstance(e, ast.Name):
+            return
+        if isinstance(e, ast.BinOp) and isinstance(e.op, ast.Add):
+            rec(e.left)
+            rec(e.right)
+            return
+        if isinstance(e, (ast.Tuple, ast.List)):
+            for x in e.elts:
+                rec(x.value if isinstance(x, ast.Starred) else x)
+            return
+        if isinstance(e, ast.Call) and isinstance(e.func, ast.Name) and \
+                e.func.id in GROUP and len(e.args) == 1 and not e.keywords:
+            rec(e.args[0])
+            return
+        if isinstance(e, ast.Call) and isinstance(e.func, ast.Attribute) and \
+                e.func.attr == "items" and isinstance(e.func.value, ast.Name) \
+                and e.func.value.id in argnames and not e.args:
+            return
+        if isinstance(e, (ast.GeneratorExp, ast.ListComp)) and \
+                len(e.generators) == 1 and not e.generators[0].ifs and \
+                ident_elt(e.elt, [e.generators[0].target]):
+            rec(e.generators[0].iter)
+            return
+        bad.append(src(e)[:60])
+    rec(expr)
+    return bad
+
+
 def _publish(repo, rep):
     f = repo.func(BT + "cook")
     order = {}
@@ -575,6 +619,16 @@ def _publish(repo, rep):
             n.id for n in ast.walk(key_expr) if isinstance(n, ast.Name)])
         okk = okk and covers_pos and covers_kw
         detail = "key %s; vararg %s, kwarg %s" % (kt[:80], va, kw)
+        # ... by the argument objects themselves: the key is put together
+        # from the argument tuple and the keyword items with nothing but
+        # tuple / sorted / frozenset / + around them.  (A class that enters
+        # the key by its name, repr or type is shared by every other class
+        # of that name.)
+        changed = _key_transforms(key_expr, {va, kw}) \
+            if key_expr is not None else ["no key"]
+        if changed:
+            okk = False
+            detail = "the key converts its parts: %s" % ", ".join(changed)[:160]
     rep.check(okk, "R14.4", c.qualname, "the loader registry is keyed by "
               "everything the load is called with -- the positional "
               "arguments and the keyword arguments (bind() passes the "
